@@ -32,6 +32,9 @@ func runC03(c *core.Ctx) {
 	c.Clause("C03.10 what a leader hands to its state machine is on its own disk first (a restart would otherwise feed a different command at that position)")
 	h.leaderFlushBeforeAdvance("C03.10 leader-flush")
 	h.openStorageRebuild("C03.11 restart-rebuild")
+	c.Clause("C03.12 what a follower applies is what the leader sent: a received entry is passed over only when the local entry at its index has the same term (an uncommitted tail of an earlier leader kept under new entries is applied as if committed)")
+	h.entrySkipAndKeep("C03.12 skip-and-keep")
+	h.truncationOnlyAtConflict("C03.12b truncation")
 	c.Clause("C03.12 upstream of one history: one leader per term — only replies of the current election are counted")
 	h.leaderOnlyByMajority("C03.12 votes-of-this-election")
 	h.candidateReleaseRetiresChannel("C03.12b stale-replies-not-counted")
